@@ -7,7 +7,7 @@ from uuid import UUID
 from dateutil.parser import isoparse
 
 DURATION_PATTERN = re.compile(
-    r"([+-])?P(\d+Y)?(\d+M)?(\d+D)?(?:T(\d+H)?(\d+M)?(\d+(?:\.\d+)?S)?)?"
+    r"([+-])?P([0-9]+Y)?([0-9]+M)?([0-9]+D)?(?:T([0-9]+H)?([0-9]+M)?([0-9]+(?:\.[0-9]+)?S)?)?"
 )
 
 
